@@ -7,6 +7,14 @@ VERIF = os.path.dirname(os.path.dirname(os.path.abspath(__file__)))
 SRC = "/tmp/mut"
 
 NEEDS = {
+ "C17e": "a pair made of two native coins with deposits paused",
+ "C17f": "vault with deposits enabled and withdrawals paused, then a Deposit",
+ "C18e": "a high-amp 3pool ramping down and a second (valid) ramp request before the first one ends",
+ "C18f": "a growth rate strictly between 1 and 1.01 at instantiate or UpdateConfig of the bonding contract",
+ "C19e": "a route of two or more hops whose earlier hop returns 0 for the 1-unit validation swap, followed by an unregistered hop",
+ "C19f": "a trio named with its byte-wise smallest asset last in one operation and in another order in the next",
+ "C20e": "an epoch manager instantiated with genesis_epoch later than start_epoch.start_time",
+ "C20f": "CreateEpoch sent by anyone but the epoch manager's admin (a keeper, or the previous owner)",
  "C09e": "an address that claimed before and fully unbonded (or bonds a second denom) sending Bond in the same block as the new epoch's start, then Claim",
  "C09f": "the migrate path from exactly v0.9.0 with a partially claimed faulty epoch still inside the grace window",
  "C10e": "take rate activated, then an UpdateConfig carrying only is_take_rate_active: Some(false), then a new epoch",
